@@ -32,6 +32,7 @@ def model_check(ctx):
     ctx.mc_expect("MC_Cache", "DEV_Cache_2.cfg", "InvFresh")
     ctx.mc_expect("MC_Cache", "DEV_Cache_3.cfg", "InvFresh")
     ctx.mc_expect("MC_Cache", "DEV_Cache_4.cfg", "InvFresh")
+    ctx.mc_expect("MC_Cache", "DEV_Cache_5.cfg", "InvFresh")
     if ctx.thorough:      # unbounded histories: inductive invariant of spec/APA_Cache.tla checked by Apalache (crv/apalache.py)
         from crv import apalache
         apalache.append_run(ctx, "APA_Cache")
@@ -233,6 +234,10 @@ def mutate(a, sc, ob, light):
         poses = [arg[i:i + 3] for i in range(0, len(arg), 3)]
         t1 = ob.initial_state.time_step + 1
         ob.prediction.trajectory = Trajectory(t1, _poses_to_states(poses, t1))
+    elif op == "reassign_trajectory":                           # edit the held Trajectory in place, hand it back to the setter
+        traj = ob.prediction.trajectory
+        traj.translate_rotate(np.array([float(arg[0]), float(arg[1])]), arg[2] * math.pi / 2)
+        ob.prediction.trajectory = traj
     elif op == "set_pshape":
         ob.prediction.shape = G.rect(float(arg[0]), float(arg[1]))
     elif op == "update_prediction":
@@ -272,7 +277,7 @@ def mutate(a, sc, ob, light):
 
 def _enabled(a, sc, ob):
     op = a["op"]
-    if op in ("set_trajectory", "set_pshape") or (op == "tr" and a["lvl"] == "prediction"):
+    if op in ("set_trajectory", "set_pshape", "reassign_trajectory") or (op == "tr" and a["lvl"] == "prediction"):
         return ob.prediction is not None
     if op == "add_lanelet":
         return sc.lanelet_network.find_lanelet_by_id(a["arg"][0]) is None
@@ -300,11 +305,13 @@ def _random_ops(seed, n):
             ops.append({"op": "tr", "lvl": r.choice(["scenario", "obstacle", "prediction", "network"]),
                         "arg": [r.randint(-3, 3), r.randint(-3, 3), r.randint(0, 3)]})
         else:
-            op = r.choice(["set_trajectory", "set_pshape", "update_prediction", "update_initial_state", "add_lanelet",
+            op = r.choice(["set_trajectory", "reassign_trajectory", "set_pshape", "update_prediction", "update_initial_state", "add_lanelet",
                            "remove_lanelet", "merge_network", "set_cycle_elements", "set_offset", "set_duration"])
             if op in ("set_trajectory", "update_prediction"):
                 n_p = r.randint(0 if op == "update_prediction" else 1, 3)
                 arg = [v for _ in range(n_p) for v in (r.randint(-4, 4), r.randint(-4, 4), r.randint(0, 3))]
+            elif op == "reassign_trajectory":
+                arg = [r.randint(-3, 3), r.randint(-3, 3), r.randint(0, 3)]
             elif op == "set_pshape":
                 arg = [r.choice([1, 2, 3]), r.choice([1, 2])]
             elif op == "update_initial_state":
